@@ -496,6 +496,8 @@ def r7_stale_handle(rule, root=None):
                 rule.ok("%s::zoom refreshes the stored pan handle after changing the scale" % ty, file=GUI, line=fn["ln"])
             elif calls:
                 rule.bad("%s|zoom|rebases-a-copy" % ty, "%s::zoom rebases a handle bound by value from `self.drag_start`: the handle is Copy, so the stored one keeps the pre-zoom matrix and the grabbed point slides away on the next drag step" % ty, A.where(fn, calls[0]))
+            elif any(c["method"] in ("begin_translate", "begin_drag") for c in A.find(fn["body"], "MethodCall")):
+                rule.bad("%s|zoom|re-grabs" % ty, "%s::zoom replaces the stored pan handle by a new grab (`begin_translate`): the drag must keep the model point grabbed when it began (rebase_translate keeps it); a new grab takes whatever lies under the zoom position - or nothing for a zoom without a position" % (ty, ty), A.where(fn))
             else:
                 rule.ok("%s::zoom refreshes the stored pan handle after changing the scale" % ty, file=GUI, line=fn["ln"])
         else:
